@@ -162,4 +162,93 @@ def c08():
         "filter is walked and the set of leaf makespans is compared by TLC with Opt(instance)")
 
 
-CHECKS = {"C04": c04, "C08": c08}
+def cpsat_event(s, mode, rng, lb=0, ub=0, small=True, with_rules=True):
+    from job_shop_lib.constraint_programming import ORToolsSolver
+    from job_shop_lib.dispatching.rules import DispatchingRuleSolver
+
+    def go():
+        if mode == "timelimit":
+            solver = ORToolsSolver(max_time_in_seconds=1e-9)
+        else:
+            solver = ORToolsSolver()
+        if mode == "reused":
+            other = model.build_instance(random_instance(rng, max_jobs=3, max_ops=3, max_m=3, flexible=False))
+            solver.solve(other)
+            if rng.random() < 0.5:
+                solver(model.build_instance(random_instance(rng, max_jobs=2, max_ops=2, max_m=2, flexible=False)))
+        return solver(s.instance) if rng.random() < 0.5 else solver.solve(s.instance)
+
+    out, sch = _outcome(go)
+    ev = {"a": "CpSat", "mode": mode, "out": out, "sched": [], "makespan": 0, "status": "", "solved_by": "",
+          "elapsed_sign": 0, "lb": lb, "ub": ub, "small": bool(small), "rule_mks": []}
+    if out == "ok":
+        md = sch.metadata
+        el = md.get("elapsed_time")
+        ev.update({"sched": model.project_schedule(sch), "makespan": model.num(md.get("makespan")),
+                   "status": str(md.get("status")), "solved_by": str(md.get("solved_by")),
+                   "elapsed_sign": (-2 if not isinstance(el, (int, float)) else (el > 0) - (el < 0))})
+        if with_rules:
+            mks = []
+            for rule in ("shortest_processing_time", "most_work_remaining", "first_come_first_served",
+                         "most_operations_remaining"):
+                o2, sc = _outcome(lambda: DispatchingRuleSolver(dispatching_rule=rule).solve(s.instance))
+                if o2 == "ok":
+                    mks.append(int(sc.makespan()))
+            ev["rule_mks"] = mks
+    s._ev(ev)
+
+
+def c03():
+    chk = Check("C03", "model_checking")
+    mod = "MC_Rules_T.tla" if chk.tier == "thorough" else "MC_Rules_Q.tla"
+    # the oracles used below (optimum over all dispatch histories, lower bounds) are model-checked:
+    # lower bound <= Opt <= the makespan of every rule-built complete schedule
+    chk.mc(mod, "RSpec",
+           {"InstFamily": "<- Fam", "FiltFamily": "<- FiltNone", "NObs": 0, "ObsKinds": "<- NoKinds",
+            "RuleSet": '{"spt", "fcfs", "mwkr", "mor"}'},
+           ["Inv_OptBounds", "Inv_RFeasible"], timeout=3000)
+    rng = random.Random(chk.seed + 3)
+    behs, _ = tlc_behaviours("c03", fam="FamNF", filt="FiltNone", mode="complete",
+                             simulate=f"num={_n(chk, 300, 1500)}", workers=4)
+    insts, seen = [], set()
+    for b in behs:
+        k = repr(b["inst"])
+        if k not in seen:
+            seen.add(k)
+            insts.append(b["inst"])
+    target = len(insts) + _n(chk, 150, 1500)
+    while len(insts) < target:
+        insts.append(random_instance(rng, max_jobs=rng.choice([1, 2, 3, 4]), max_ops=rng.choice([1, 2, 3]),
+                                     max_m=rng.choice([1, 2, 3]), durs=(0, 0, 1, 2, 3, 5, 9), flexible=False))
+    traces = []
+    for i, inst in enumerate(insts):
+        nops = sum(len(j) for j in inst)
+        s = dsession.DSession(i + 1, inst, [])
+        for mode in ("fresh", "reused", "timelimit"):
+            cpsat_event(s, mode, rng, small=nops <= 8)
+        traces.append(s.trace())
+    chk.monitor(traces, source="cpsat-small-instances")
+    # benchmark instances with recorded bounds (too large for Opt by TLC: bounds only)
+    from job_shop_lib.benchmarking import load_benchmark_instance
+    names = ["ft06"] + (["la01", "la02", "la05", "orb07"] if chk.tier == "thorough" else [])
+    traces = []
+    for k, nm in enumerate(names):
+        bi = load_benchmark_instance(nm)
+        inst = model.instance_to_abstract(bi)
+        s = dsession.DSession(len(insts) + k + 1, inst, [])
+        lb = int(bi.metadata.get("lower_bound") or 0)
+        ub = int(bi.metadata.get("optimum") or bi.metadata.get("upper_bound") or 0)
+        cpsat_event(s, "fresh", rng, lb=lb, ub=ub, small=False)
+        cpsat_event(s, "reused", rng, lb=lb, ub=ub, small=False)
+        traces.append(s.trace())
+    chk.monitor(traces, source="cpsat-benchmarks")
+    chk.assumptions.append("OR-Tools CP-SAT is a black box: only its results are judged")
+    return chk.finish(
+        "TLC: oracles model-checked (lower bound <= Opt <= every rule result); traces: every non-flexible "
+        "instance drawn from the TLC family (zero durations, recirculation, single job, one machine) and "
+        "random ones solved by a fresh solver, by a solver object that already solved other instances, "
+        "and under a 1 ns limit; schedule feasibility/completeness/makespan/optimality (= Opt(instance) "
+        "computed by TLC over all dispatch histories) judged by the monitor")
+
+
+CHECKS = {"C04": c04, "C08": c08, "C03": c03}
